@@ -342,8 +342,9 @@ def r4_multiband(ctx):
         if ok:
             st = stmt_of(f, ac[0])
             out_name = st.targets[0].id if isinstance(st, ast.Assign) and isinstance(st.targets[0], ast.Name) else None
-            ok = out_name is not None and len(app) == 1 and ast.unparse(app[0].args[0]) == out_name and \
-                stmt_of(f, app[0]).lineno > st.lineno
+            # the amplifier's result is appended: through a local, or the call written as the argument
+            ok = len(app) == 1 and ((out_name is not None and ast.unparse(app[0].args[0]) == out_name and
+                                     stmt_of(f, app[0]).lineno > st.lineno) or app[0].args[0] is ac[0])
         ctx.check('R4.multiband', f'{site(f)} output collected', bool(ok), key(f, 'collect-output'),
                   'what is collected per band is not the spectrum RETURNED by that band amplifier')
         mx = calls_to(f, {'muxed_spectral_information'})
